@@ -2,53 +2,8 @@
 `register/quant.rs`: get_absolute, get_probabilities, rescale, normalize.
 (split out of GenRegs2.lean so that an equality that no longer holds blocks only the properties that rely on it)
 -/
-import Qvnt.Lemmas.GenQuant
-
-set_option linter.unusedSectionVars false
-
-namespace Qvnt.Gen2
-open Qvnt Qvnt.Gen
-
-variable {R : Type}
-
-section arith
-variable [Add R] [Sub R] [Mul R] [Div R] [Neg R] [Zero R] [One R] [Consts R]
-  [LE R] [DecidableLE R] [LT R] [DecidableLT R] [HasSqrt R] [RegConsts R]
-
-theorem quant_get_absolute_eq (r : QReg R) : quant_get_absolute (ofModel r) = r.getAbsolute := by
-  simp only [quant_get_absolute, QReg.getAbsolute, ofModel, Rs.sum, List.foldl_map, ← Array.foldl_toList]
-
-theorem quant_get_probabilities_eq (r : QReg R) (h : r.qNum < 64) (hs : 2 ^ r.qNum ≤ r.psi.size) :
-    quant_get_probabilities (ofModel r) = r.getProbabilities := by
-  have habs := quant_get_absolute_eq r
-  simp only [quant_get_absolute, ofModel] at habs
-  simp only [quant_get_probabilities, QReg.getProbabilities, ofModel, habs, shl_one _ h]
-  apply List.ext_getElem
-  · simp; omega
-  · intro i h1 h2
-    have hi : i < r.psi.size := by simp at h2; omega
-    simp [Array.getD, hi]
-
-theorem scale_toList (a : Array (Cx R)) (k : R) :
-    (a.map (fun v => v.scale k)).toList = List.map (fun v => Cx.scale v k) a.toList := by simp
-
-theorem quant_rescale_eq (r : QReg R) : quant_rescale (ofModel r) = ofModel r.rescale := by
-  have habs := quant_get_absolute_eq r
-  unfold quant_rescale QReg.rescale
-  simp only [habs]
-  by_cases h : (0 : R) < HasSqrt.sqrt r.getAbsolute
-  · simp [h, ofModel, GT.gt]
-  · simp [h, ofModel, GT.gt]
-
-theorem quant_normalize_eq (r : QReg R) : quant_normalize (ofModel r) = ofModel r.normalize := by
-  have habs := quant_get_absolute_eq r
-  unfold quant_normalize QReg.normalize
-  simp only [habs]
-  by_cases h1 : HasSqrt.sqrt r.getAbsolute ≤ (RegConsts.tiny : R)
-  · simp [h1, quant_reset_eq]
-  · by_cases h2 : (1 : R) - HasSqrt.sqrt r.getAbsolute ≤ RegConsts.close
-    · simp [h1, h2]
-    · simp [h1, h2, ofModel]
-
-end arith
-end Qvnt.Gen2
+import Qvnt.Lemmas.GenQProb.quant_get_absolute_eq
+import Qvnt.Lemmas.GenQProb.quant_get_probabilities_eq
+import Qvnt.Lemmas.GenQProb.scale_toList
+import Qvnt.Lemmas.GenQProb.quant_rescale_eq
+import Qvnt.Lemmas.GenQProb.quant_normalize_eq
